@@ -28,3 +28,20 @@ pub proof fn lemma_sum_len_push(blobs: Seq<IndexBlob>, b: IndexBlob, n: int)
         assert(blobs.push(b)[n - 1] == blobs[n - 1]);
     }
 }
+
+// ---- header size arithmetic (PackHeaderRef::size / pack_size) ----
+// one header entry: type(1) + length(4) + id(32) = 37 bytes, plus uncompressed length(4) = 41 for compressed blobs
+pub open spec fn entry_len(b: IndexBlob) -> int { if b.location.uncompressed_length is None { 37 } else { 41 } }
+pub open spec fn hdr_sum(blobs: Seq<IndexBlob>, n: int) -> int
+    decreases n
+{
+    if n <= 0 { 0 } else { hdr_sum(blobs, n - 1) + entry_len(blobs[n - 1]) }
+}
+pub proof fn lemma_hdr_sum_mono(blobs: Seq<IndexBlob>, i: int, j: int)
+    requires 0 <= i <= j <= blobs.len(),
+    ensures 0 <= hdr_sum(blobs, i) <= hdr_sum(blobs, j), 0 <= sum_len(blobs, i) <= sum_len(blobs, j),
+    decreases j
+{
+    if i < j { lemma_hdr_sum_mono(blobs, i, j - 1); } else if i > 0 { lemma_hdr_sum_mono(blobs, i - 1, j - 1); }
+}
+pub struct PackHeaderRef<'a>(pub &'a [IndexBlob]);
